@@ -1,5 +1,5 @@
 """Subprocess wrapper for a compiled SUT: one case per line in, one trace line out."""
-import subprocess, os
+import subprocess, os, select
 
 
 class Sut:
@@ -15,12 +15,19 @@ class Sut:
             raise RuntimeError('SUT did not start: %r' % ready)
         self.idmap = parse_idmap(ready[6:].strip())
         self.dead = False
+        self.timeout = float(os.environ.get('VERIF_SUT_TIMEOUT', '30'))
 
     def run(self, case_line):
         """Returns the trace (string) or raises SutCrash."""
         try:
             self.p.stdin.write(case_line + '\n')
             self.p.stdin.flush()
+            r, _, _ = select.select([self.p.stdout], [], [], self.timeout)
+            if not r:
+                # the SUT does not answer: an operation that costs microseconds is spinning (or blocked)
+                self.p.kill()
+                self.dead = True
+                raise SutHang(case_line)
             out = self.p.stdout.readline()
         except BrokenPipeError:
             out = ''
@@ -44,6 +51,13 @@ class Sut:
             except Exception:
                 self.p.kill()
         self.dead = True
+
+
+class SutHang(Exception):
+    def __init__(self, line):
+        super().__init__('SUT did not answer within the time limit on: %s' % line[:200])
+        self.rc = 'hang'
+        self.err = 'no answer (spinning) on operation: %s' % line[:300]
 
 
 class SutCrash(Exception):
